@@ -166,11 +166,6 @@ static const PmcConfig CFG[] = {
     {"0f:mzy|yI0",        2, {2,2}, {0,0}, {0,0}, {0,0}, "joiner interrupted while its thread runs elsewhere"},
     {"0f:M1,y|X1",        3, {1,2}, {0,0}, {0,0}, {0,0}, "a thread migrated into a vCPU that goes straight into vcpu_fini(): it must still run"},
     {"0f:M1M2,y,ny|X2",   3, {1,2}, {0,0}, {0,0}, {0,0}, ""},
-    {"0f:gen2|1x1",       3, {0,1}, {0,0}, {0,0}, {0,0}, "generated: 2+1 threads on two vCPUs, one op each from {y,z,m,M0-2,i0-2,I0,s}, every arrival order; thorough: + one preemption"},
-    {"0f:gen1|1x2",       3, {0,0}, {0,0}, {0,0}, {0,0}, "generated: 1+1 threads, up to 2 ops each"},
-    {"1f:gen2|1x1",       3, {0,0}, {0,0}, {0,0}, {0,0}, "... with work stealing"},
-    {"0f:gen2|1x2",       2, {0,0}, {0,0}, {0,0}, {0,0}, ""},
-    {"0p:gen2|1x1",       2, {0,0}, {0,0}, {0,0}, {0,0}, "pooled allocator"},
     {"0f:mym|ymy",        2, {1,2}, {0,0}, {0,0}, {0,0}, "ping-pong migration"},
     {"1f:m,yyy|",         3, {1,2}, {0,0}, {0,0}, {0,0}, "stealing: vCPU1 receives a migrated thread, then steals from vCPU0's run queue"},
     {"1f:m,yy,yy|",       3, {1,2}, {0,0}, {0,0}, {0,0}, ""},
@@ -179,6 +174,12 @@ static const PmcConfig CFG[] = {
     {"1f:m,ny,ny|",       2, {1,2}, {0,0}, {0,0}, {0,0}, "stolen non-joinable threads"},
     {"1d:m,yyy|",         2, {1,1}, {0,0}, {0,0}, {0,0}, "default allocator"},
     {"1p:m,yyy|",         2, {1,1}, {0,0}, {0,0}, {0,0}, "pooled allocator"},
+    // generated programs last: they take whatever budget the configs above leave
+    {"0f:gen2|1x1",       3, {0,1}, {0,0}, {0,0}, {0,0}, "generated: 2+1 threads on two vCPUs, one op each from {y,z,m,M0-2,i0-2,I0,s}, every arrival order; thorough: + one preemption"},
+    {"0f:gen1|1x2",       2, {0,0}, {0,0}, {0,0}, {0,0}, "generated: 1+1 threads, up to 2 ops each"},
+    {"1f:gen2|1x1",       3, {0,0}, {0,0}, {0,0}, {0,0}, "... with work stealing"},
+    {"0f:gen2|1x2",       2, {0,0}, {0,0}, {0,0}, {0,0}, ""},
+    {"0p:gen2|1x1",       2, {0,0}, {0,0}, {0,0}, {0,0}, "pooled allocator"},
 };
 const PmcConfig* pmc_configs(int* n) { *n = sizeof CFG / sizeof CFG[0]; return CFG; }
 const char* pmc_property(void) { return "C05"; }
